@@ -317,6 +317,11 @@ pub fn drive(d: &mut Driver)
 			jobs.push(json!({"kind": "integers", "type": ti, "suffixed": suffixed}));
 		}
 	}
+	for ti in 0..INT_TYPES.len()
+	{
+		jobs.push(json!({"kind": "positions", "type": ti}));
+	}
+	d.bound("literal positions", json!({"positions": POSITIONS.iter().map(|p| p.0).collect::<Vec<_>>(), "values": ["max of the type (no lint)", "max + 1 (lint, wraps)"], "types": 11}));
 	let nrej = rejected_integer_literals().len();
 	for lo in (0..nrej).step_by(8)
 	{
@@ -359,6 +364,11 @@ pub fn work(spec: &Value, w: &mut WorkerCtx)
 			let t = INT_TYPES[spec["type"].as_u64().unwrap() as usize];
 			let suffixed = spec["suffixed"].as_bool().unwrap();
 			integers(&t, suffixed, &spec, w);
+		}
+		"positions" =>
+		{
+			let t = INT_TYPES[spec["type"].as_u64().unwrap() as usize];
+			positions(&t, &spec, w);
 		}
 		"rejected-integers" =>
 		{
@@ -478,6 +488,99 @@ fn expect_rejected(text: &str, code: u16, what: &str, replay: Value, w: &mut Wor
 		}
 		CaseOutcome::Crashed { .. } =>
 		{}
+	}
+}
+
+/// Syntactic positions of a literal: (name, declarations before main with {T} {L} {N}, statements
+/// in main with {T} {L} {N}, whether the statements print the value)
+pub const POSITIONS: [(&str, &str, &str, bool); 9] = [
+	("initialiser", "", "\tvar v{N}: {T} = {L};\n\tprint!(v{N}, \"\\n\");\n", true),
+	("assignment", "", "\tvar v{N}: {T} = 0;\n\tv{N} = {L};\n\tprint!(v{N}, \"\\n\");\n", true),
+	("argument", "fn id{N}(v: {T}) -> {T}\n{\n\treturn: v\n}\n", "\tvar v{N}: {T} = id{N}({L});\n\tprint!(v{N}, \"\\n\");\n", true),
+	("return value", "fn get{N}() -> {T}\n{\n\treturn: {L}\n}\n", "\tvar v{N}: {T} = get{N}();\n\tprint!(v{N}, \"\\n\");\n", true),
+	("condition", "", "\tvar v{N}: {T} = 1;\n\tif v{N} == {L}\n\t{\n\t\tv{N} = 2;\n\t}\n", false),
+	("array element", "", "\tvar v{N}: [2]{T} = [0, {L}];\n\tprint!(v{N}[1], \"\\n\");\n", true),
+	("structure member", "struct H{N}\n{\n\tm: {T},\n}\n", "\tvar v{N}: H{N} = H{N} { m: {L} };\n\tprint!(v{N}.m, \"\\n\");\n", true),
+	("operand", "", "\tvar z{N}: {T} = 0;\n\tvar v{N}: {T} = z{N} + {L};\n\tprint!(v{N}, \"\\n\");\n", true),
+	("constant", "const C{N}: {T} = {L};\n", "\tprint!(C{N}, \"\\n\");\n", true),
+];
+
+/// For every position: the maximum of the type (in range) and the maximum plus one (must raise
+/// L1142 on the line of the literal and wrap at run time).
+fn positions(t: &IntTy, spec: &Value, w: &mut WorkerCtx)
+{
+	let max: u128 = if t.signed { (1u128 << (t.bits - 1)) - 1 } else if t.bits == 128 { u128::MAX } else { (1u128 << t.bits) - 1 };
+	let values: Vec<(u128, bool)> = if t.bits == 128 && !t.signed { vec![(max, true)] } else { vec![(max, true), (max + 1, false)] };
+	for (pi, (pname, decls, stmts, prints)) in POSITIONS.iter().enumerate()
+	{
+		let mut head = String::new();
+		let mut body = String::new();
+		for (n, (value, _)) in values.iter().enumerate()
+		{
+			let fill = |s: &str| s.replace("{T}", t.name).replace("{L}", &value.to_string()).replace("{N}", &n.to_string());
+			head.push_str(&fill(decls));
+			body.push_str(&fill(stmts));
+		}
+		let text = format!("{head}fn main() -> u8\n{{\n{body}\treturn: 0\n}}\n");
+		w.result.states += values.len() as u64;
+		w.result.transitions += values.len() as u64;
+		let desc = || json!({"kind": "positions", "type": spec["type"], "position": pi, "text": text, "sig_hint": format!("positions:{pname}")});
+		let d = desc().to_string().into_bytes();
+		let src = text.clone();
+		let outcome = w.run_case(&d, || {
+			let v = alpha::compile_one(&src, alpha::FULL);
+			let exec = match &v
+			{
+				Verdict::Ok { irs, .. } => Some(run_lli(&irs[0], 20_000)),
+				_ => None,
+			};
+			(v, exec)
+		});
+		match outcome
+		{
+			CaseOutcome::Done((Verdict::Ok { lints, .. }, Some(exec))) =>
+			{
+				let mut expected_out = String::new();
+				for (value, in_range) in &values
+				{
+					w.result.validated += 1;
+					let literal = value.to_string();
+					let lines: Vec<usize> = text.lines().enumerate().filter(|(_, l)| l.contains(&literal) && !l.contains(&format!("{literal}0"))).map(|(i, _)| i + 1).collect();
+					let linted = lints.iter().any(|x| x.code == 1142 && lines.contains(&x.line));
+					if *in_range && linted
+					{
+						w.result.violation(&format!("L1142-on-in-range-literal:position:{pname}"), 10, &desc, || format!("{} {literal} as {pname}: within range but raises L1142\n{text}", t.name));
+					}
+					if !*in_range && !linted
+					{
+						w.result.violation(&format!("out-of-range-literal-without-L1142:position:{pname}"), 10, &desc, || format!("{} {literal} as {pname}: outside the range of the type but no L1142 on its line (lints: {:?})\n{text}", t.name, lints.iter().map(|x| (x.code, x.line)).collect::<Vec<_>>()));
+					}
+					w.result.outcome(&format!("positions:{}", if *in_range { "in range" } else { "out of range" }));
+					if *prints
+					{
+						// max + 1 wraps to the minimum (signed) or to zero (unsigned)
+						let shown = if *in_range { value.to_string() } else if t.signed { format!("-{}", max + 1) } else { "0".to_string() };
+						expected_out.push_str(&format!("{shown}\n"));
+					}
+				}
+				if exec.status != Some(0) || exec.stdout != expected_out
+				{
+					w.result.violation(&format!("wrong-runtime-value:position:{pname}"), 10, &desc, || format!("{} literals as {pname}: the program prints {:?} (status {:?}), expected {expected_out:?}\n{text}", t.name, exec.stdout, exec.status));
+				}
+			}
+			CaseOutcome::Done((other, _)) =>
+			{
+				let codes = other.codes();
+				w.result.violation(&format!("valid-literal-program-rejected:E{}:position:{pname}", codes.first().copied().unwrap_or(0)), 10, &desc, || format!("{} literals as {pname}: rejected with {codes:?}\n{text}", t.name));
+			}
+			CaseOutcome::Panicked { site, message } =>
+			{
+				let sig = format!("panic@{}", crate::util::site_signature(&site, &message));
+				w.result.violation(&sig, 10, &desc, || format!("panic at {site}: {message}\n{text}"));
+			}
+			CaseOutcome::Crashed { .. } =>
+			{}
+		}
 	}
 }
 
